@@ -148,6 +148,14 @@ def standard_check(spec, argv):
             broken = 'assumptions: ' + '; '.join(rep['bad_axioms'][:5]) + rep['log'][-400:]
         log(broken)
 
+    chk = None
+    if tier == 'thorough' and proof_ok:
+        chk = vlib.coqchk([f for f in spec.props_files])
+        if not chk['ok']:
+            proof_ok = False
+            broken = 'coqchk rejected the compiled development: ' + chk['summary'][-600:]
+            log(broken)
+
     # ---- 3-6. correspondence --------------------------------------------------------------
     n_cases = 0
     cases = spec.corpus() + spec.gen_cases(rng, tier)
@@ -295,6 +303,7 @@ def standard_check(spec, argv):
         gen_changed=[os.path.basename(k) for k, v in changed.items() if v],
         notes=notes,
         coq_build_seconds=round(b['seconds'], 1),
+        coqchk=chk,
     )
     vlib.write_evidence(prop, tier, seed, cov, spec.assumptions, time.time() - t0, len(violations))
     for rp, suffix in violations:
